@@ -184,6 +184,8 @@ func runCase(c *Case) (res string) {
 		return runCacheConc(c)
 	case "regex":
 		return runRegex(c, tree)
+	case "rxcache":
+		return runRxCache(c)
 	}
 	return "badkind"
 }
@@ -268,9 +270,23 @@ func runHist(c *Case, tree *Tree) string {
 		return "cerr"
 	}
 	var outs []string
+	var tree2 *Tree
 	for _, op := range strings.Split(c.Extra, ";") {
 		if op == "" {
 			continue
+		}
+		if op[0] == 'D' {
+			// a second document (hex of its encoding): ops written S@ctx:k / E@ctx run on it
+			tree2 = BuildTree(DecodeDoc(unhx(op[1:])))
+			continue
+		}
+		tr := tree
+		if len(op) > 1 && op[1] == '@' {
+			if tree2 == nil {
+				return "badop"
+			}
+			tr = tree2
+			op = op[:1] + op[2:]
 		}
 		one := func(e *xpath.Expr) (res string) {
 			defer func() {
@@ -282,7 +298,7 @@ func runHist(c *Case, tree *Tree) string {
 			case 'S':
 				p := strings.SplitN(op[1:], ":", 2)
 				k, _ := strconv.Atoi(p[1])
-				it := e.Select(tree.At(ParseRef(p[0]), !c.NoNS))
+				it := e.Select(tr.At(ParseRef(p[0]), !c.NoNS))
 				var rs []Ref
 				for n := 0; (k < 0 || n < k) && it.MoveNext(); n++ {
 					rs = append(rs, RefOf(it.Current()))
@@ -292,7 +308,7 @@ func runHist(c *Case, tree *Tree) string {
 				}
 				return "seq:" + refsStr(rs)
 			case 'E':
-				return valueStr(e.Evaluate(tree.At(ParseRef(op[1:]), !c.NoNS)))
+				return valueStr(e.Evaluate(tr.At(ParseRef(op[1:]), !c.NoNS)))
 			}
 			return "badop"
 		}
